@@ -2,25 +2,37 @@ SPEC = dict(
     claimed=True,
     title='Stopping regulation hands the fan back or leaves it at full speed',
     props_file='Props/C03.v', props_mod='Props.C03',
-    proof_files=['Proofs/Restore.v', 'Drv/Restore.v'],
+    proof_files=['Proofs/Restore.v', 'Proofs/Daemon.v', 'Drv/Restore.v', 'Drv/Daemon.v'],
     tie_vo=[],
     drivers=[dict(name='restore', drv_mod='Drv.Restore', drv_file='Drv/Restore.v', shard=700,
-                  timeout={'quick': 600, 'thorough': 1200})],
+                  timeout={'quick': 600, 'thorough': 1200}),
+             dict(name='daemon', drv_mod='Drv.Daemon', drv_file='Drv/Daemon.v', shard=50,
+                  args={'quick': ['n=24'], 'thorough': ['n=400']}, timeout={'quick': 600, 'thorough': 3000})],
     rule='restore: exhaustive over backend (hwmon/file/cmd) x pwmN_enable present/absent x original mode {0,1,2,3,5} x original PWM '
          '{0,77,255,unreadable} x current device state {manual at 120, still in original mode at 33} x every verdict of the four driver '
          'operations of restorePwmEnabled (PWM write, mode write, read-back incl. EACCES/garbage, last-resort write); trySetManualPwm: every '
          'current mode x all verdicts of both mode writes and read-backs. Non-trivial = some verdict is a fault or the original mode is not manual; '
-         'distinct = distinct case terms.',
+         'distinct = distinct case terms. daemon: the real internal.RunDaemon in a child process (fake hwmon tree, file fans, a cmd fan with a slow set '
+         'script; sleeps scaled 1/20, 15-30 ms tick rates); scenarios: 1-3 SIGTERM/SIGINT sent when every fan is ticking / gathering (start-up wait) / the last fan '
+         'entered its first-second delay, 4 further signals when the restore of the slow fan is seen, 5 the RPM sensor of a fan under initialisation fails while the '
+         'others regulate (Run returns an error), 6/7 the PID sensor of fan 0 fails (control error; without/with RPM monitor, then signals); quick 24 schedules, thorough 400; '
+         'signals are sent on log markers only.',
     assumptions=[
+        'oracle (oklog/run): the first actor to return triggers every interrupt function once; Group.Run returns only after all actors returned',
+        'oracle (runtime): os.Exit follows g.Run; a signal is delivered into the one-element buffer of the notify channel or dropped; a send on a closed channel panics the process',
+        'oracle (scheduler): context cancellation is observed by a controller only at its tick select (any interleaving of the events of Model/Daemon.v is a schedule; disabled events are no-ops)',
+        'C03_process speaks about controllers whose regulation began (inner run group started) and about the failed-initialisation path; a failing second LoadFanPwmData/AttachFanRpmCurveData after a successful initialisation returns without restore (process_startup_gap)',
         'orig = the (mode, PWM) fan2go captured at start-up; equal to the device state when the two start-up reads succeed (capture_faithful)',
         'device oracle: every write is answered Ok (state changes), Refused (error) or Ignored (success reported, state unchanged); every read Ok / Fails / Garbage / PermissionDenied',
         'D22 hypothesis of C03_restore_local: not (mode write ignored AND read-back answered EACCES)',
     ],
-    trusted_base=['hand-written model coq/Model/Restore.v of restorePwmEnabled / trySetManualPwm / SetPwmEnabled; agreement with the code observed on the exhaustive verdict space'],
-    partial='',
+    trusted_base=['hand-written model coq/Model/Restore.v of restorePwmEnabled / trySetManualPwm / SetPwmEnabled; agreement with the code observed on the exhaustive verdict space',
+                  'hand-written transition system coq/Model/Daemon.v of RunDaemon / Run (phases, two run groups, signal actor); agreement with the real daemon observed on marker-driven process runs (exit status, final fan state)'],
+    partial='C03_process is a theorem about the modelled process structure: OS signal delivery, goroutine scheduling and oklog/run are oracle hypotheses exercised by the daemon driver, not verified.',
     finding_codes={22: 'D22'},
     finding_text={'D22': 'HwMonFan.SetPwmEnabled tolerates EACCES on the read-back ("assuming it worked"): a silently ignored mode write is then believed and the fan stays in manual mode at its original PWM'},
-    level_text='restorePwmEnabled proved safe for every backend, original state, device state and verdict combination (case analysis, axiom-free).',
+    level_text='restorePwmEnabled proved safe for every backend, original state, device state and verdict combination (case analysis); the process model '
+               'proved panic-free and safe on termination for every configuration and every schedule of any length with any number of signals (invariant, induction on the schedule); axiom-free.',
     level_note='trusted: Coq kernel; hand-written model of the restore path, agreement with the code observed exhaustively over the verdict space',
     design_ref='DESIGN.md section 5 C03',
 )
